@@ -107,9 +107,31 @@ def run_affinity(c):
                 import pika
                 body = json.dumps({"data": s_["input"], "context": {"StateMachine": {"Id": S.SM_ARN}}})
                 w.harness_channel.basic_publish("", shared, body, pika.BasicProperties(content_type="application/json", delivery_mode=2, message_id="raw-%d" % k if s_["mode"] == "raw-id" else None))
-        res = w.run(c["schedule"], max_steps=5000, until=settled)
+        poison = c.get("poison")
+        if poison:
+            # an uninterpretable message arrives in the middle of the run, while the instance holds other deliveries unacknowledged (Tasks and Waits in flight):
+            # dropping it must acknowledge that one delivery and no other
+            k = min(poison["after"], len(c["schedule"]))
+            w.run(c["schedule"][:k], max_steps=w.steps + poison["after"], until=settled)
+            import pika
+            qn = shared if poison["queue"] == "shared" else inst_q[ids[0]]
+            w.harness_channel.basic_publish("", qn, poison["body"].encode("utf8"), pika.BasicProperties(content_type="application/json"))
+            res = w.run(c["schedule"][k:], max_steps=5000, until=settled)
+        else:
+            res = w.run(c["schedule"], max_steps=5000, until=settled)
         if res == "max_steps":
             fails.append(("no-quiescence", "still busy after 5000 steps"))
+        # "acknowledging a message acknowledges that delivery and no other": every basic.ack of an engine names exactly one delivery
+        acks = {}
+        for o in w.broker.oplog:
+            if o["kind"] == "ack" and str(o["owner"]).startswith("engine:"):
+                acks.setdefault((o["seq"] if not o.get("multiple") else ("m", o["step"], o["channel"])), []).append(o["uid"])
+                if o.get("multiple"):
+                    fails.append(("ack-with-multiple-flag", "basic.ack(multiple=True) by %s acknowledged uid %s (step %s)" % (o["owner"], o["uid"], o["step"])))
+        if w.broker.total_unacked() and res != "max_steps":
+            left = [(q.name, m.uid) for conn in w.broker.connections if str(conn.owner).startswith("engine:") for ch in conn.channels for (q, m, cn) in ch.unacked.values()]
+            if left:
+                fails.append(("delivery-never-acknowledged", repr(left[:4])))
         # ---- monitor over the operation log
         log = w.broker.oplog
         owner = {}          # execution arn -> engine id that consumed its start event
@@ -187,6 +209,112 @@ def run_affinity(c):
         if w.broker.protocol_errors:
             fails.append(("protocol-error", repr(w.broker.protocol_errors[:2])))
         info = {"per_instance_deliveries": per_instance, "owners": sorted(set(owner.values()))}
+    finally:
+        w.close()
+    return fails, info
+
+
+# ------------------------------------------------------------------ children
+CHILD_FORMS = {
+    "async": ("arn:aws:states:local::states:startExecution", False),
+    "sync": ("arn:aws:states:local::states:startExecution.sync", True),
+    "sync2": ("arn:aws:states:local::states:startExecution.sync:2", True),
+    "sdk_sync": ("arn:aws:states:local::aws-sdk:sfn:startSyncExecution", True),
+}
+
+
+def run_children(c):
+    """
+    Parent executions launch child executions through every startExecution form while 2-3 instances share the queues.
+    A synchronously launched child belongs to the launching instance: its start event and every later event must be
+    published to and delivered from that instance's own queue (the parent's Task is completed from that instance's
+    memory). An asynchronously launched child is an ordinary start event on the shared queue.
+    """
+    from .. import world as W
+    fails = []
+    qt = c["queue_type"]
+    suffix = "-qq" if qt == "quorum" else ""
+    shared = "asl_workflow_events" + suffix
+    resource, sync = CHILD_FORMS[c["form"]]
+    w = W.World(seed=19, tick=1e-6, queue_type=qt, orphan_retention_ms=3000)
+    try:
+        ids = ["A", "B", "C"][:c["n_engines"]]
+        w.add_engine("A")
+        child_type = "EXPRESS" if c["form"] == "sdk_sync" else c["child_type"]
+        child = {"StartAt": "C1", "States": {"C1": {"Type": "Task", "Resource": W.fn_arn("childfn"), "Next": "C2"}, "C2": {"Type": "Wait", "Seconds": 1, "Next": "C3"}, "C3": {"Type": "Pass", "End": True}}}
+        parent = {"StartAt": "L", "States": {"L": {"Type": "Task", "Resource": resource, "TimeoutSeconds": 40, "Parameters": {"StateMachineArn": W.sm_arn("child"), "Input": {"v.$": "$.v"}}, "ResultPath": "$.launch", "Next": "Z"},
+                                             "Z": {"Type": "Task", "Resource": W.fn_arn("childfn"), "End": True}}}
+        for nm, d, t in (("child", child, child_type), ("parent", parent, c["parent_type"])):
+            st, r = w.create_state_machine(nm, d, type_=t)
+            if st != 200:
+                raise HarnessError("CreateStateMachine refused: %r" % (r,))
+        for i in ids[1:]:
+            w.add_engine(i)
+        w.add_worker("childfn", lambda i, p, props: [(0, p)])
+        inst_q = {i: shared + "-" + i for i in ids}
+        parents = []
+        for k in range(c["n_parents"]):
+            st, r = w.start_execution(W.sm_arn("parent"), {"v": k}, name="p%d" % k, engine=ids[(k + c.get("api_offset", 0)) % len(ids)])
+            if st != 200:
+                raise HarnessError("StartExecution refused: %r" % (r,))
+            parents.append(r["executionArn"])
+        res = w.run(c["schedule"], max_steps=5000, until=settled)
+        if res == "max_steps":
+            fails.append(("children:no-quiescence", "still busy after 5000 steps"))
+        log = w.broker.oplog
+        msg = {}
+        for o in log:
+            if o["kind"] == "publish":
+                try:
+                    ev = json.loads(o["body"])
+                except Exception:
+                    continue
+                if isinstance(ev, dict) and isinstance(ev.get("context"), dict) and isinstance(ev["context"].get("StateMachine"), dict):
+                    msg[o["uid"]] = ev
+        child_sm = W.sm_arn("child")
+        owner = {}              # execution arn -> instance that consumed its start event
+        launcher = {}           # child execution arn -> instance that published its start event
+        n_child_events = 0
+        for o in log:
+            ev = msg.get(o.get("uid"))
+            if ev is None or not str(o.get("owner", "")).startswith("engine:"):
+                continue
+            eng = o["owner"].split(":", 1)[1]
+            ctx = ev["context"]
+            arn = (ctx.get("Execution") or {}).get("Id")
+            is_child = ctx["StateMachine"].get("Id") == child_sm
+            st_ = ctx.get("State") or {}
+            start = not st_.get("Name") and "Branch" not in st_
+            if o["kind"] == "publish" and is_child and start:
+                launcher[arn] = eng
+                want = inst_q[eng] if sync else shared
+                if o["routing_key"] != want:
+                    fails.append(("children:%s-child-start-published-to-%s" % ("sync" if sync else "async", "shared-queue" if o["routing_key"] == shared else "other-queue"),
+                                  "form %s: child start event published by %s with routing key %r, expected %r" % (c["form"], eng, o["routing_key"], want)))
+            elif o["kind"] == "deliver":
+                if start and arn:
+                    owner.setdefault(arn, eng)
+                if is_child:
+                    n_child_events += 1
+                    if sync and arn in launcher and eng != launcher[arn]:
+                        fails.append(("children:sync-child-event-delivered-to-other-instance", "event of %s (launched by %s) delivered to %s from %s" % (arn, launcher[arn], eng, o["queue"])))
+                    if not sync and not start and arn in owner and eng != owner[arn]:
+                        fails.append(("children:event-delivered-to-other-instance", "event of %s (owned by %s) delivered to %s" % (arn, owner[arn], eng)))
+                elif not start and arn in owner and eng != owner[arn]:
+                    fails.append(("children:parent-event-delivered-to-other-instance", "event of %s (owned by %s) delivered to %s" % (arn, owner[arn], eng)))
+        for k, arn in enumerate(parents):
+            d = w.terminal(arn)
+            if d is None:
+                fails.append(("children:parent-did-not-end", "%s form %s" % (arn, c["form"])))
+            elif d["status"] != "SUCCEEDED":
+                fails.append(("children:parent-%s" % d["status"], "%s form %s: %s %s" % (arn, c["form"], d.get("error"), str(d.get("cause"))[:200])))
+        if len(launcher) != c["n_parents"]:
+            fails.append(("children:launch-count", "%d child start events for %d parents" % (len(launcher), c["n_parents"])))
+        for e in w.engine_exceptions:
+            fails.append(("engine-callback-exception:%s:%s" % (e["type"], e["where"]), json.dumps(e)[:300]))
+        if w.broker.protocol_errors:
+            fails.append(("protocol-error", repr(w.broker.protocol_errors[:2])))
+        info = {"owners": sorted(set(owner.values())), "child_events": n_child_events, "launchers": sorted(set(launcher.values()))}
     finally:
         w.close()
     return fails, info
@@ -361,15 +489,15 @@ def reference_consumer(addr, existing_exchanges):
         out["queues"][qname] = flags
         out["consumer"]["queue"] = qname
         for b in node.get("x-bindings") or []:
-            out["bindings"].add((b["queue"], b["exchange"], b.get("key") or ""))
+            out["bindings"].add((b["queue"], b["exchange"], b.get("key") or "", json.dumps(b["arguments"], sort_keys=True) if b.get("arguments") else None))
         if not node.get("x-bindings") and subject:
-            out["bindings"].add((qname, name, subject))
+            out["bindings"].add((qname, name, subject, None))
     else:
         out["queues"][name] = {"durable": durable, "exclusive": bool(xd.get("exclusive")), "auto_delete": auto_delete}
         out["consumer"]["queue"] = name
         for b in node.get("x-bindings") or []:
             if b["exchange"]:
-                out["bindings"].add((b["queue"], b["exchange"], b.get("key") or ""))
+                out["bindings"].add((b["queue"], b["exchange"], b.get("key") or "", json.dumps(b["arguments"], sort_keys=True) if b.get("arguments") else None))
     return out
 
 
@@ -389,11 +517,11 @@ def observe(w, label):
         if n == "preexisting-q":
             continue
         queues[n] = {"durable": bool(q.durable), "exclusive": q.exclusive_owner is not None, "auto_delete": bool(q.auto_delete)}
-    exchanges = {n: {"type": e.type, "durable": bool(e.durable), "auto_delete": bool(e.auto_delete)} for n, e in b.exchanges.items() if not n.startswith("amq.") and n not in ("", "pre-topic", "asl_workflow_engine")}
+    exchanges = {n: {"type": e.type, "durable": bool(e.durable), "auto_delete": bool(e.auto_delete)} for n, e in b.exchanges.items() if not n.startswith("amq.") and n not in ("", "pre-topic", "pre-headers", "asl_workflow_engine")}
     bindings = set()
     for n, e in b.exchanges.items():
         for (qn, rk, args) in e.bindings:
-            bindings.add((qn, n, rk or ""))
+            bindings.add((qn, n, rk or "", json.dumps(args, sort_keys=True) if args else None))
     consumers = [(cn.queue.name, bool(cn.exclusive)) for q in b.queues.values() for cn in q.consumers if cn.channel.owner == label]
     return {"queues": queues, "exchanges": exchanges, "bindings": bindings, "consumers": consumers}
 
@@ -410,6 +538,7 @@ def run_address(c):
             # a topic exchange that exists before the address is opened
             import pika
             w.harness_channel.exchange_declare("pre-topic", exchange_type="topic", durable=True)
+            w.harness_channel.exchange_declare("pre-headers", exchange_type="headers", durable=True)
             t = Transport(w, transport, "client")
             try:
                 if c["role"] == "consumer":
@@ -437,15 +566,15 @@ def run_address(c):
         if na != nb:
             fails.append(("transports-disagree:declarations", "address %s: asyncio %r, blocking %r" % (text, na, nb)))
     if a[0] == "ok" and c["role"] == "consumer":
-        want = reference_consumer(addr, {"pre-topic"})
+        want = reference_consumer(addr, {"pre-topic", "pre-headers"})
         obs = a[1]
         gq = {(None if n.startswith("amq.gen-") else n): f for n, f in obs["queues"].items()}
         if gq != want["queues"]:
             fails.append(("address-queues-differ", "address %s declared queues %r, the grammar describes %r" % (text, gq, want["queues"])))
         if obs["exchanges"] != want["exchanges"]:
             fails.append(("address-exchanges-differ", "address %s declared exchanges %r, the grammar describes %r" % (text, obs["exchanges"], want["exchanges"])))
-        gb = {((None if str(q).startswith("amq.gen-") else q), e, k) for q, e, k in obs["bindings"]}
-        wb = {((None if (q is None or str(q) == "") else q), e, k) for q, e, k in want["bindings"]}
+        gb = {((None if str(q).startswith("amq.gen-") else q), e, k, a_) for q, e, k, a_ in obs["bindings"]}
+        wb = {((None if (q is None or str(q) == "") else q), e, k, a_) for q, e, k, a_ in want["bindings"]}
         if gb != wb:
             fails.append(("address-bindings-differ", "address %s bound %r, the grammar describes %r" % (text, sorted(gb, key=str), sorted(wb, key=str))))
         gc = [((None if n.startswith("amq.gen-") else n), x) for n, x in obs["consumers"]]
@@ -469,7 +598,7 @@ def run_address(c):
 def normalise(obs):
     o = copy.deepcopy(obs)
     o["queues"] = {("<server-named>" if n.startswith("amq.gen-") else n): f for n, f in o["queues"].items()}
-    o["bindings"] = sorted((("<server-named>" if str(q).startswith("amq.gen-") else q), e, k) for q, e, k in o["bindings"])
+    o["bindings"] = sorted(((("<server-named>" if str(q).startswith("amq.gen-") else q), e, k, a_) for q, e, k, a_ in o["bindings"]), key=str)
     o["consumers"] = sorted((("<server-named>" if n.startswith("amq.gen-") else n), x) for n, x in o["consumers"])
     return o
 
@@ -477,10 +606,11 @@ def normalise(obs):
 # ------------------------------------------------------------------ generators
 def strategies():
     from hypothesis import strategies as st
+    poison = st.one_of(st.none(), st.none(), st.fixed_dictionaries({"after": st.integers(1, 25), "queue": st.sampled_from(["shared", "instance"]), "body": st.sampled_from(["{bad", "", "[1, 2]", "\"text\"", "{\"data\": 1}"])}))
     aff = st.tuples(S.cases_with_schedules(dict(S.CFG_SCHED, max_states=6), max_sched=30, multi=True), st.integers(1, 3), st.sampled_from(["classic", "classic", "quorum"]),
-                    st.integers(0, 2), st.sampled_from([1000, 1000, 60])).map(
+                    st.integers(0, 2), st.sampled_from([1000, 1000, 60]), poison).map(
         lambda t: {"family": "affinity", "case": {k: t[0][0][k] for k in ("definition", "input", "oracle", "type")}, "features": t[0][0].get("features", []), "schedule": t[0][1], "starts": t[0][2],
-                   "n_engines": t[1], "queue_type": t[2], "api_offset": t[3], "capacity": t[4]})
+                   "n_engines": t[1], "queue_type": t[2], "api_offset": t[3], "capacity": t[4], "poison": t[5]})
     text = st.sampled_from(["", "x", "a b", "é", "{\"k\": 1}", "line\nbreak", "q" * 300])
     props = st.one_of(st.none(), st.just({}), st.dictionaries(st.sampled_from(["a", "x-y", "trace.id", "n"]), st.one_of(st.integers(-5, 5), st.text(max_size=5), st.booleans()), max_size=3))
     msg = st.fixed_dictionaries({
@@ -496,8 +626,13 @@ def strategies():
     link = st.fixed_dictionaries({}, optional={"x-subscribe": st.fixed_dictionaries({"exclusive": st.booleans()})})
     plain_q = st.tuples(qname, st.one_of(st.none(), st.fixed_dictionaries({}, optional={"node": node_q, "link": link})), st.booleans()).map(
         lambda t: {"name": t[0], "options": t[1], "sep": t[2]})
-    bound_q = st.tuples(qname, st.sampled_from(["k1", "a.b", ""]), st.booleans()).map(
-        lambda t: {"name": t[0], "options": {"node": {"durable": t[2], "x-bindings": [{"exchange": "pre-topic", "queue": t[0], "key": t[1]}]}}})
+    # one to three bindings; several of them may differ only in the key, or (headers exchange, where the key is ignored and usually omitted) only in their arguments
+    binding = st.one_of(
+        st.fixed_dictionaries({"exchange": st.just("pre-topic"), "key": st.sampled_from(["k1", "a.b", ""])}),
+        st.fixed_dictionaries({"exchange": st.just("pre-headers"), "arguments": st.fixed_dictionaries({"x-match": st.sampled_from(["all", "any"]), "owner": st.sampled_from(["Sauron", "Gandalf", "Frodo"])})},
+                              optional={"key": st.sampled_from(["data1", ""])}))
+    bound_q = st.tuples(qname, st.lists(binding, min_size=1, max_size=3), st.booleans()).map(
+        lambda t: {"name": t[0], "options": {"node": {"durable": t[2], "x-bindings": [dict(b, queue=t[0]) for b in t[1]]}}})
     topic_sub = st.tuples(st.sampled_from(["sports", "a.*.c", "#"]), st.one_of(st.none(), st.fixed_dictionaries({"link": st.fixed_dictionaries({"x-declare": st.fixed_dictionaries(
         {"queue": st.sampled_from(["news-queue", "sub1"])}, optional={"exclusive": st.booleans(), "durable": st.booleans(), "auto-delete": st.booleans()})})}))).map(
         lambda t: {"name": "pre-topic", "subject": t[0], "options": t[1]})
@@ -511,16 +646,23 @@ def strategies():
         st.tuples(st.sampled_from(["news-service", "ex.1"]), st.sampled_from(["topic", "direct"])).map(lambda t: {"name": "", "options": {"node": {"x-declare": {"exchange": t[0], "exchange-type": t[1]}}}, "sep": True}),
     )
     prod = st.tuples(prod_addr, st.sampled_from([None, None, "subj.x"])).map(lambda t: {"family": "address", "role": "producer", "address": t[0], "send_subject": t[1]})
-    return aff, mapping, cons, prod
+    children = st.fixed_dictionaries({"family": st.just("children"), "form": st.sampled_from(sorted(CHILD_FORMS)), "n_engines": st.integers(2, 3), "n_parents": st.integers(1, 4),
+                                      "queue_type": st.sampled_from(["classic", "classic", "quorum"]), "api_offset": st.integers(0, 2), "child_type": st.sampled_from(["STANDARD", "EXPRESS"]),
+                                      "parent_type": st.sampled_from(["STANDARD", "STANDARD", "EXPRESS"]), "schedule": st.lists(st.sampled_from([0, 0, 0, 1, 2, 3]), max_size=25)})
+    children = children.filter(lambda c: not (c["parent_type"] == "EXPRESS" and c["form"] in ("sync", "sync2")))        # .sync from an EXPRESS parent is an invalid combination (C15's subject)
+    return aff, mapping, cons, prod, children
 
 
 def evaluate(c):
     fam = c["family"]
+    if fam == "children":
+        fails, info = run_children(c)
+        return fails, len(info.get("owners", [])) > 1 or len(info.get("launchers", [])) > 1, ["family-children", "child-form-" + c["form"], "engines-%d" % c["n_engines"]] + (["several-owners"] if len(info.get("owners", [])) > 1 else [])
     if fam == "affinity":
         fails, info = run_affinity(c)
         nt = c["n_engines"] > 1 and info.get("per_instance_deliveries", 0) > 0
         classes = ["family-affinity", "engines-%d" % c["n_engines"], "queue-" + c["queue_type"], "execs-%d" % len(c["starts"])] + ["f:" + f for f in c.get("features", []) if f in ("Parallel", "Map", "Wait", "Retry")] + \
-                  (["small-prefetch"] if c.get("capacity") == 60 else []) + (["several-owners"] if len(info.get("owners", [])) > 1 else [])
+                  (["small-prefetch"] if c.get("capacity") == 60 else []) + (["poison-message-mid-run"] if c.get("poison") else []) + (["several-owners"] if len(info.get("owners", [])) > 1 else [])
         return fails, nt, classes
     if fam == "mapping":
         fails = run_mapping(c)
@@ -534,11 +676,11 @@ def shard(k, seed, tier, examples=60):
     import hypothesis
     from hypothesis import given, settings, HealthCheck, Phase, strategies as st
     camp = Campaign(PID, rule=RULE, tier=tier, seed=seed)
-    aff, mapping, cons, prod = strategies()
+    aff, mapping, cons, prod, children = strategies()
 
     @hypothesis.seed(seed)
     @settings(max_examples=examples, deadline=None, database=None, suppress_health_check=list(HealthCheck), phases=[Phase.generate])
-    @given(st.one_of(aff, aff, mapping, mapping, cons, cons, prod))
+    @given(st.one_of(aff, aff, mapping, mapping, cons, cons, prod, children))
     def run(c):
         try:
             fails, nt, classes = evaluate(c)
